@@ -25,10 +25,11 @@ VALUES = {
     'strs': lambda: ['p', 'qq'],
     'nested': lambda: [[1, 2], 'ab'],
     'np2d': lambda: np.array([[1, 2], [3, 4], [5, 6]]),          # a 2-D array: its values are its rows
+    'np0d': lambda: np.array(5),                                 # a 0-d array cannot be iterated: a single value
 }
 EXPANDED = {
     'int': [7], 'str': ['xy'], 'empty': [], 'one': [1], 'two': [1, 2], 'tuple_rep': [1, 1], 'range2': [0, 1],
-    'nparr': [1, 2], 'none': [None], 'strs': ['p', 'qq'], 'nested': [[1, 2], 'ab'], 'np2d': [[1, 2], [3, 4], [5, 6]],
+    'nparr': [1, 2], 'none': [None], 'strs': ['p', 'qq'], 'nested': [[1, 2], 'ab'], 'np2d': [[1, 2], [3, 4], [5, 6]], 'np0d': [5],
 }
 NAMES = ['a', 'b', 'c']
 STARTS = {
@@ -110,11 +111,15 @@ class Harness:
         for n in NAMES:
             ops += [['add', n, v] for v in self.values]
             ops.append(['remove', n])
-        ops += [['add', 3, 'int'], ['remove', 'zz'], ['ctor_bad']]
+        ops += [['add', 3, 'int'], ['remove', 'zz'], ['ctor_bad'], ['build']]
         return ops
 
     def apply(self, w, op):
         names = [n for n, _ in w.decl]
+        if op[0] == 'build':
+            # building is an operation of its own: whatever build() remembers must not show in later builds
+            self.check(w)
+            return
         if op[0] == 'add':
             name, vk = op[1], op[2]
             if not isinstance(name, str):
@@ -138,12 +143,11 @@ class Harness:
             raise Violation('constructor accepted a non-string parameter name', expected='AttributeError')
 
     def _rejected(self, w, call, exc, what):
-        before = self.cn(w.pl)
         try:
             call()
         except exc:
-            if self.cn(w.pl) != before:
-                raise Violation(f'{what}: rejected but the declaration changed')
+            # "without effect" is judged by what the list builds afterwards (check() runs after every operation and
+            # compares with the unchanged reference declaration), not by its private fields
             return
         raise Violation(f'{what}: accepted', expected=exc.__name__, observed='no exception')
 
@@ -157,7 +161,6 @@ class Harness:
                 raise Violation('editing one ParameterList changed another list built from the same dictionary',
                                 expected=product(w.decl2)[:6], observed=other[:6])
         exp = product(w.decl)
-        before = self.cn(w.pl)
         r1 = w.pl.build()
         self._compare(w, r1, exp, 'first build')
         # vandalise the first result
@@ -172,8 +175,8 @@ class Harness:
             raise Violation('two builds share a dictionary')
         if len({id(d) for d in r2}) != len(r2):
             raise Violation('one build returned the same dictionary object twice')
-        if self.cn(w.pl) != before:
-            raise Violation('build() changed the declaration')
+        r3 = w.pl.build()
+        self._compare(w, r3, exp, 'third build')       # building never changes the declaration
         w.last = (tuple(w.decl), len(exp))
 
     def _compare(self, w, got, exp, what):
@@ -219,7 +222,37 @@ def churn_case(case):
     return builds
 
 
+def churn_same_case(case):
+    """ONE parameter list that is re-declared again and again: add a fresh collection under the same name, build,
+    compare, remove.  (The collections are temporaries: their addresses get reused.)"""
+    pl = ParameterList()
+    pl.add_parameter('fixed', ['u', 'v'])
+    for r in range(case['rounds']):
+        n = case['items']
+        vals = [r * 100 + i for i in range(n)] if case['kind'] == 'list' else tuple(r * 100 + i for i in range(n))
+        pl.add_parameter('a', vals)
+        exp = [{'fixed': f, 'a': v} for f in ('u', 'v') for v in vals]
+        del vals
+        got = pl.build()
+        if got != exp:
+            raise Violation(f'round {r}: after re-declaring parameter "a" the build is not the product of the current '
+                            f'declaration', expected=exp[:4], observed=got[:4])
+        pl.remove_parameter('a')
+        if pl.build() != [{'fixed': 'u'}, {'fixed': 'v'}]:
+            raise Violation(f'round {r}: build after removing "a" still shows it')
+    return 2 * case['rounds']
+
+
 def run(ctx):
+    for kind in ('list', 'tuple'):
+        for items in (1, 2, 5, 60):
+            case = {'leg': 'churn_same', 'kind': kind, 'items': items, 'rounds': 60}
+            ctx.traces += 1
+            try:
+                ctx.transitions += hbfs._guard(churn_same_case, case)
+            except Violation as v:
+                ctx.report(case, v)
+                return
     for kind in ('list', 'tuple'):
         for items in (3, 48, 64, 200):
             case = {'leg': 'churn', 'kind': kind, 'items': items, 'rounds': 120}
@@ -231,7 +264,7 @@ def run(ctx):
                 return
     ctx.leg('churn', note='8 sequences of 120 short-lived lists with 3 / 48 / 64 / 200 values')
     if ctx.tier == 'quick':
-        vals = ['int', 'str', 'empty', 'one', 'two', 'tuple_rep', 'range2', 'nparr', 'none', 'np2d']
+        vals = ['int', 'str', 'empty', 'one', 'two', 'tuple_rep', 'range2', 'nparr', 'none', 'np2d', 'np0d']
         plan = [('empty', vals, 3), ('dict_ab', vals[:5], 2), ('empty_dict', vals[:3], 1), ('dict_ba', vals[3:8], 2)]
     else:
         vals = list(VALUES)
@@ -249,5 +282,8 @@ def run(ctx):
 def replay(case):
     if case['leg'] == 'churn':
         hbfs._guard(churn_case, case)
+        return
+    if case['leg'] == 'churn_same':
+        hbfs._guard(churn_same_case, case)
         return
     hbfs.replay_case(Harness(case['config']['start'], case['config']['values']), case)
